@@ -21,6 +21,7 @@ def prepare_scratch(prop, groups):
     # an unchanged file is not touched, so the warm build stays valid
     subprocess.run(["rsync", "-rlp", "--checksum", "--delete", "--exclude", "target", "--exclude", ".git", REPO + "/", dst + "/"], check=True)
     attached = []
+    also_done = set()
     for g in groups:
         info = KANI_GROUPS[g]
         hfile = os.path.join(VERIF, "kani", info["file"])
@@ -36,6 +37,9 @@ def prepare_scratch(prop, groups):
             shutil.copyfile(gen["rs"], os.path.join(dst, "src", f"verif_frag_{g}.rs"))
         for (afile, ahar, aname) in info.get("attach_also", []):
             # helper modules a harness needs in another file of the crate (e.g. to build a struct with private fields)
+            if (afile, aname) in also_done:
+                continue
+            also_done.add((afile, aname))
             with open(os.path.join(dst, afile), "a") as f:
                 f.write(f'\n#[cfg(kani)]\n#[path = "{os.path.join(VERIF, "kani", ahar)}"]\npub(crate) mod verif_kani_{aname};\n')
         modfile = os.path.join(dst, info["attach"])
@@ -270,7 +274,8 @@ def playback(prop, group, unit_test, timeout=1800):
     hcopy = os.path.join(base, "harness_with_playback.rs")
     with open(hcopy, "w") as f:
         f.write(open(os.path.join(VERIF, "kani", info["file"])).read())
-        f.write("\n" + unit_test + "\n")
+        # (fully qualified std names: a harness module may re-bind `Vec` / `vec!` to stand-ins)
+        f.write("\n" + unit_test.replace("Vec<Vec<u8>>", "std::vec::Vec<std::vec::Vec<u8>>").replace("vec![", "std::vec![") + "\n")
     if "fragment_unit" in info:
         src = os.path.join(base, "crate")
         os.makedirs(os.path.join(src, "src"), exist_ok=True)
@@ -291,6 +296,9 @@ def playback(prop, group, unit_test, timeout=1800):
             if gen["rc"] != 0:
                 return {"reproduced": None, "tail": "extraction failed"}
             shutil.copyfile(gen["rs"], os.path.join(src, "src", f"verif_frag_{group}.rs"))
+        for (afile, ahar, aname) in info.get("attach_also", []):
+            with open(os.path.join(src, afile), "a") as f:
+                f.write(f'\n#[cfg(kani)]\n#[path = "{os.path.join(VERIF, "kani", ahar)}"]\npub(crate) mod verif_kani_{aname};\n')
         with open(os.path.join(src, info["attach"]), "a") as f:
             f.write(f'\n#[cfg(kani)]\n#[path = "{hcopy}"]\nmod verif_kani_{group};\n')
     cmd = ["cargo", "kani", "playback", "-Z", "concrete-playback"] + [a for a in (info.get("args") or []) if a in ("-Z", "stubbing")] + ["--", tname]
